@@ -396,8 +396,9 @@ func runC19(c *run.Ctx) {
 		pc := pc
 		c.Case("dbg-"+pc.ID, func() { checkDebug(c, pc.ID, pc.E, pc.Env, pc.User, nil) })
 	}
+	sameSourceDebug(c)
 	for i, pc := range permCases() {
-		if !c.Mine(i) || i%7 != 0 {
+		if !c.Mine(i) || (c.Tier == "quick" && i%2 != 0) {
 			continue
 		}
 		pc := pc
@@ -405,11 +406,93 @@ func runC19(c *run.Ctx) {
 	}
 }
 
+// sameSourceDebug: one process debugs the same source text over environments
+// that differ only in nested types (and over identical ones): each call must
+// still agree with normal evaluation of the same source over the same data.
+func sameSourceDebug(c *run.Ctx) {
+	type O1 struct {
+		F float64 `yae:"f"`
+	}
+	type O2 struct {
+		F string `yae:"f"`
+	}
+	type O3 struct {
+		F []float64 `yae:"f"`
+	}
+	variants := []map[string]interface{}{
+		{"xs": []float64{1, 2}, "m": map[string]float64{"a": 1}, "o": O1{3}, "b": true},
+		{"xs": []string{"p", "q"}, "m": map[string]string{"a": "x"}, "o": O2{"y"}, "b": true},
+		{"xs": []bool{true, false}, "m": map[string][]float64{"a": {1}}, "o": O3{[]float64{4}}, "b": false},
+		{"xs": [][]float64{{1}, {2, 3}}, "m": map[string]bool{"a": true}, "o": O1{5}, "b": false},
+		{"xs": []map[string]float64{{"k": 1}, {}}, "m": map[string]map[string]string{"a": {"k": "v"}}, "o": O2{""}, "b": true},
+		{"xs": []float64{7, 8}, "m": map[string]float64{"a": 9}, "o": O1{10}, "b": false},
+	}
+	sources := []string{
+		"len(xs)", "xs[0]", "xs[1] == xs[0]", "string(xs)", "if(b, xs[0], xs[1])", "xs == xs", "[xs, xs][1]",
+		"len(m)", "m[\"a\"]", "string(m)", "m == m", "o.f", "string(o)", "o.f == o.f", "[o.f, xs[0]]", "{\"k\": xs}[\"k\"]",
+		"if(b, o.f, m[\"a\"])", "string(xs[0]) + string(o.f)",
+	}
+	for si, src := range sources {
+		for rot := range variants {
+			if !c.Mine(si*len(variants) + rot) {
+				continue
+			}
+			src, rot := src, rot
+			c.Case(fmt.Sprintf("same-source/%d/%d", si, rot), func() {
+				c.Input(src)
+				for k := range variants {
+					env := variants[(k+rot)%len(variants)]
+					ev, eerr := yae.Eval(src, env)
+					var dv *val.Val
+					var rep string
+					var derr error
+					if p := func() (p string) {
+						defer func() {
+							if r := recover(); r != nil {
+								p = fmt.Sprint(r)
+							}
+						}()
+						dv, rep, derr = yae.Debug(src, env)
+						return ""
+					}(); p != "" {
+						c.Violation("debug-facade", fmt.Sprintf("yae.Debug panics: %s :: %s over %v", p, src, env), nil)
+						return
+					}
+					c.Count("debug_runs", 1)
+					c.Count("facade_debug_runs", 1)
+					what := fmt.Sprintf("%s over %v (call %d of this source in the process)", src, env, k+1)
+					if (eerr == nil) != (derr == nil) {
+						c.Violation("debug-result", fmt.Sprintf("yae.Debug err=%v, yae.Eval err=%v :: %s", derr, eerr, what), nil)
+						return
+					}
+					if eerr != nil {
+						continue
+					}
+					if safeStr(dv) != safeStr(ev) || dv.Type.String() != ev.Type.String() {
+						c.Violation("debug-result", fmt.Sprintf("yae.Debug yields %s, yae.Eval yields %s :: %s", safeStr(dv), safeStr(ev), what), nil)
+						return
+					}
+					lines := strings.Split(rep, "\n")
+					if len(lines) == 0 || lines[0] != src {
+						c.Violation("debug-render", fmt.Sprintf("the report does not start with the source :: %s", what), map[string]string{"report": rep})
+						return
+					}
+					if src[0] != '[' && src[0] != '{' && !strings.Contains(safeStr(dv), "\n") && !strings.Contains(rep, safeStr(dv)) { // literals are not recorded
+						c.Violation("debug-render", fmt.Sprintf("the report does not show the final value %s :: %s", safeStr(dv), what), map[string]string{"report": rep})
+						return
+					}
+					c.Distinct(fmt.Sprintf("%s/%d", src, (k+rot)%len(variants)))
+				}
+			})
+		}
+	}
+}
+
 func init() {
 	run.Register(&run.Spec{
 		ID: "C19", Run: runC19, Level: "exploration",
 		Rule: "generated single-line programs (80% sugared; ASCII, CJK and emoji identifiers and strings; values that render on several lines; 8% failing sub-terms; unevaluated lazy branches) with and without harness functions, the laziness families and the field-permutation families, run through closure.DebugCompile with a fresh record or with a record that already served one evaluation (hook: entries) and, for built-in-only programs over host data, through yae.Debug; " +
-			"monitor: result / failure equals normal evaluation (reference evaluator, vm, closure); recorded entries == the reference evaluator's log of (value, column) for every identifier, call, member and subscript actually evaluated, in evaluation order, columns from the harness's own rendering (identifier start; operator, '?' or '(' of a call; '['; '.'); report: never fails, first line is the source, every recorded value appears at its column (multi-line values on consecutive lines); yae.Debug report == report of the same record. distinct = distinct source",
+			"monitor: result / failure equals normal evaluation (reference evaluator, vm, closure); recorded entries == the reference evaluator's log of (value, column) for every identifier, call, member and subscript actually evaluated, in evaluation order, columns from the harness's own rendering (identifier start; operator, '?' or '(' of a call; '['; '.'); report: never fails, first line is the source, every recorded value appears at its column (multi-line values on consecutive lines); yae.Debug report == report of the same record; 18 sources debugged repeatedly in one process through yae.Debug over 6 host environments that differ only in nested types (every rotation): each call agrees with yae.Eval of the same source over the same data. distinct = distinct source",
 		Assume:    []string{"lazy host functions that force one thunk twice are excluded (a second record of one term has no column of its own)"},
 		MinEvents: 1000, EventKey: "debug_runs",
 	})
